@@ -126,7 +126,7 @@ func c13Stream(msize uint32, dotu bool, seed int64) []c13frame {
 // a segmentation is the list of segment lengths (the remainder goes into a last segment).
 type c13seg struct {
 	name string
-	cuts []int // ascending split offsets
+	cuts []int  // ascending split offsets
 	id   string // distinguishes segmentations of the same class in the distinct count
 }
 
